@@ -10,7 +10,7 @@ for f in ("patch.diff", "demo_test.go"):
     shutil.copy(os.path.join(src, f), dst)
 meta = json.load(open(os.path.join(src, "meta.json")))
 pid = name.split("-")[0]
-meta.update({"demo_dir": demo, "round": 3, "verified_by_me": {"script": "DEMO_DIR=%s tools/eval_seeded.sh /verif/seeded/%s %s" % (demo, name, pid),
+meta.update({"demo_dir": demo, "round": int(os.environ.get("ROUND", "3")), "verified_by_me": {"script": "DEMO_DIR=%s tools/eval_seeded.sh /verif/seeded/%s %s" % (demo, name, pid),
     "demo_passes_without_patch": True, "existing_suite_passes_with_patch": True, "demo_fails_with_patch": True,
     "outcome": outcome, "caught_by": cb[:400], "note": note}})
 json.dump(meta, open(os.path.join(dst, "meta.json"), "w"), indent=1)
